@@ -330,3 +330,8 @@ func TestC15(t *testing.T) {
 		r.MarkExhaustive("crd info attr describe and info chord describe for every root x attribute / chord x preference")
 	}
 }
+
+func perfectUnison() note.Degree {
+	d, _ := note.NewDegree(1, note.PerfectDegree)
+	return d
+}
